@@ -361,90 +361,106 @@ func TestVerifC15(t *testing.T) {
 		name string
 		md   metadata.MD
 	}{{"no header", nil}, {"s2s-request-translation=false", bypass}, {"x-s2s-intra-proxy=1", intra}, {"s2s-request-translation=false + x-s2s-intra-proxy=1", metadata.Join(bypass, intra)}}
+	// the policy's second list (allowed namespaces) must not change any method verdict: every family is run with and
+	// without it; with it, requests name the allowed namespace wherever they have a namespace field
+	nsLists := [][]string{nil, {"allowed-ns"}}
 	for _, transport := range transports {
 		for _, f := range fams {
-			if transport != "tcp" && !vrt.Thorough() && vrt.ReplayPath() == "" {
-				// quick: the mux transports get the base families and the singleton / complement lists of two methods
-				if strings.Contains(f.name, ":") && !strings.HasSuffix(f.name, ":DescribeCluster") && !strings.HasSuffix(f.name, ":StreamWorkflowReplicationMessages") {
+			for _, nsList := range nsLists {
+				if transport != "tcp" && !vrt.Thorough() && vrt.ReplayPath() == "" {
+					// quick: the mux transports get the base families and the singleton / complement lists of two methods
+					if nsList != nil || strings.Contains(f.name, ":") && !strings.HasSuffix(f.name, ":DescribeCluster") && !strings.HasSuffix(f.name, ":StreamWorkflowReplicationMessages") {
+						continue
+					}
+				}
+				cfg := config.ClusterConnConfig{ACLPolicy: &config.ACLPolicy{AllowedMethods: config.AllowedMethods{AdminService: f.list}, AllowedNamespaces: nsList}}
+				cl, err := vfStartClusterOn(cfg, transport)
+				if err != nil {
+					res.Violate("acl/cluster-connection-fails", transport+": "+err.Error(), map[string]any{"family": f.name, "transport": transport})
 					continue
 				}
-			}
-			cfg := config.ClusterConnConfig{ACLPolicy: &config.ACLPolicy{AllowedMethods: config.AllowedMethods{AdminService: f.list}}}
-			cl, err := vfStartClusterOn(cfg, transport)
-			if err != nil {
-				res.Violate("acl/cluster-connection-fails", transport+": "+err.Error(), map[string]any{"family": f.name, "transport": transport})
-				continue
-			}
-			allowed := map[string]bool{}
-			for _, m := range f.list {
-				allowed[m] = true
-			}
-			for _, mi := range vfAllMethods() {
-				for _, hv := range headerVariants {
-					md, hdr := hv.md, hv.name
-					replay := map[string]any{"family": f.name, "method": mi.Full, "header": hdr, "transport": transport}
-					hdr = transport + ", " + hdr
-					// remote side -> inbound server (policy applies)
-					cl.Local.Reset()
-					var err error
-					if mi.Streaming {
-						smd := metadata.Join(md, metadata.Pairs("temporal-client-cluster-id", "2", "temporal-client-shard-id", "1", "temporal-server-cluster-id", "1", "temporal-server-shard-id", "1"))
-						err = vfOpenStream(cl.FromRemote, mi, smd, func() bool { return len(cl.Local.Recorded()) > 0 })
-					} else {
-						_, err = vfInvoke(cl.FromRemote, mi, nil, md)
+				allowed := map[string]bool{}
+				for _, m := range f.list {
+					allowed[m] = true
+				}
+				for _, mi := range vfAllMethods() {
+					for _, hv := range headerVariants {
+						md, hdr := hv.md, hv.name
+						replay := map[string]any{"family": f.name, "method": mi.Full, "header": hdr, "transport": transport}
+						hdr = transport + ", " + hdr
+						var req proto.Message
+						if nsList != nil {
+							hdr += ", allowedNamespaces=[allowed-ns]"
+							req = mi.In.New().Interface()
+							if fd := req.ProtoReflect().Descriptor().Fields().ByName("namespace"); fd != nil && fd.Kind() == protoreflect.StringKind && !fd.IsList() {
+								req.ProtoReflect().Set(fd, protoreflect.ValueOfString("allowed-ns"))
+								hdr += ", request names it"
+							}
+						}
+						// remote side -> inbound server (policy applies)
+						cl.Local.Reset()
+						var err error
+						if mi.Streaming {
+							smd := metadata.Join(md, metadata.Pairs("temporal-client-cluster-id", "2", "temporal-client-shard-id", "1", "temporal-server-cluster-id", "1", "temporal-server-shard-id", "1"))
+							err = vfOpenStream(cl.FromRemote, mi, smd, func() bool { return len(cl.Local.Recorded()) > 0 })
+						} else {
+							_, err = vfInvoke(cl.FromRemote, mi, req, md)
+						}
+						evals++
+						perTransport[transport]++
+						n := 0
+						for _, c := range cl.Local.Recorded() {
+							if c.Method == mi.Full {
+								n++
+							}
+						}
+						code := status.Code(err)
+						switch {
+						case mi.Service == "AdminService" && len(f.list) > 0 && !allowed[mi.Name]:
+							nontrivial++
+							if code != codes.PermissionDenied {
+								res.Violate("acl/admin-method-not-refused", fmt.Sprintf("allow-list %s, %s, %s: status %v (%v), want PermissionDenied", f.name, mi.Full, hdr, code, err), replay)
+							}
+							if n != 0 {
+								res.Violate("acl/refused-admin-call-reached-local-cluster", fmt.Sprintf("allow-list %s, %s, %s: the local cluster saw %d call(s)", f.name, mi.Full, hdr, n), replay)
+							}
+						case mi.Service == "AdminService" && nsList != nil:
+							// the namespace verdict on an allowed method is C16's subject
+						case mi.Service == "AdminService":
+							if code == codes.PermissionDenied {
+								res.Violate("acl/allowed-admin-method-refused", fmt.Sprintf("allow-list %s, %s, %s: %v", f.name, mi.Full, hdr, err), replay)
+							} else if n != 1 {
+								res.Violate("acl/allowed-admin-call-not-forwarded-once", fmt.Sprintf("allow-list %s, %s, %s: the local cluster saw %d call(s), status %v", f.name, mi.Full, hdr, n, err), replay)
+							}
+						case mi.Name == "RegisterNamespace" || mi.Name == "DeprecateNamespace":
+							nontrivial++
+							if code != codes.PermissionDenied || n != 0 {
+								res.Violate("acl/namespace-lifecycle-call-not-refused", fmt.Sprintf("allow-list %s, %s, %s: status %v, local cluster saw %d call(s)", f.name, mi.Full, hdr, code, n), replay)
+							}
+						}
 					}
+				}
+				// local side -> outbound server: no policy there, admin calls are forwarded
+				for _, mi := range vfAllMethods() {
+					if mi.Service != "AdminService" || mi.Streaming || nsList != nil {
+						continue
+					}
+					cl.Remote.Reset()
+					_, err := vfInvoke(cl.FromLocal, mi, nil, nil)
 					evals++
-					perTransport[transport]++
-					n := 0
-					for _, c := range cl.Local.Recorded() {
-						if c.Method == mi.Full {
-							n++
-						}
-					}
-					code := status.Code(err)
-					switch {
-					case mi.Service == "AdminService" && len(f.list) > 0 && !allowed[mi.Name]:
-						nontrivial++
-						if code != codes.PermissionDenied {
-							res.Violate("acl/admin-method-not-refused", fmt.Sprintf("allow-list %s, %s, %s: status %v (%v), want PermissionDenied", f.name, mi.Full, hdr, code, err), replay)
-						}
-						if n != 0 {
-							res.Violate("acl/refused-admin-call-reached-local-cluster", fmt.Sprintf("allow-list %s, %s, %s: the local cluster saw %d call(s)", f.name, mi.Full, hdr, n), replay)
-						}
-					case mi.Service == "AdminService":
-						if code == codes.PermissionDenied {
-							res.Violate("acl/allowed-admin-method-refused", fmt.Sprintf("allow-list %s, %s, %s: %v", f.name, mi.Full, hdr, err), replay)
-						} else if n != 1 {
-							res.Violate("acl/allowed-admin-call-not-forwarded-once", fmt.Sprintf("allow-list %s, %s, %s: the local cluster saw %d call(s), status %v", f.name, mi.Full, hdr, n, err), replay)
-						}
-					case mi.Name == "RegisterNamespace" || mi.Name == "DeprecateNamespace":
-						nontrivial++
-						if code != codes.PermissionDenied || n != 0 {
-							res.Violate("acl/namespace-lifecycle-call-not-refused", fmt.Sprintf("allow-list %s, %s, %s: status %v, local cluster saw %d call(s)", f.name, mi.Full, hdr, code, n), replay)
-						}
+					if status.Code(err) == codes.PermissionDenied {
+						res.Violate("acl/outbound-server-refuses", fmt.Sprintf("%s, allow-list %s: %s through the outbound (local-facing) server: %v", transport, f.name, mi.Full, err), map[string]any{"family": f.name, "method": mi.Full, "transport": transport})
 					}
 				}
+				cl.Close()
 			}
-			// local side -> outbound server: no policy there, admin calls are forwarded
-			for _, mi := range vfAllMethods() {
-				if mi.Service != "AdminService" || mi.Streaming {
-					continue
-				}
-				cl.Remote.Reset()
-				_, err := vfInvoke(cl.FromLocal, mi, nil, nil)
-				evals++
-				if status.Code(err) == codes.PermissionDenied {
-					res.Violate("acl/outbound-server-refuses", fmt.Sprintf("%s, allow-list %s: %s through the outbound (local-facing) server: %v", transport, f.name, mi.Full, err), map[string]any{"family": f.name, "method": mi.Full, "transport": transport})
-				}
-			}
-			cl.Close()
 		}
 	}
 	res.Set("evaluations_per_transport", perTransport)
 	res.Set("evaluations", evals)
 	res.Set("distinct_nontrivial", nontrivial)
 	res.Set("allow_list_families", int64(len(fams)))
-	res.Set("rule", "real ClusterConnection (remote side on TCP, mux-server and mux-client transports over loopback; for the mux transports the harness owns the peer end of the yamux session) with an ACL policy: allow-list families {empty, full, non-existent names only, singleton and complement-of-singleton for the selected admin methods (all of them in thorough)} x every method of AdminService and WorkflowService (streaming method opened as a stream) x {no header, s2s-request-translation=false, x-s2s-intra-proxy=1, both}; plus every unary admin method through the outbound server; non-trivial = cases that must be refused")
+	res.Set("rule", "real ClusterConnection (remote side on TCP, mux-server and mux-client transports over loopback; for the mux transports the harness owns the peer end of the yamux session) with an ACL policy: allow-list families {empty, full, non-existent names only, singleton and complement-of-singleton for the selected admin methods (all of them in thorough)} x every method of AdminService and WorkflowService (streaming method opened as a stream) x {no header, s2s-request-translation=false, x-s2s-intra-proxy=1, both} x {policy without / with an allowedNamespaces list (requests then name the allowed namespace where they have the field; quick: TCP only)}; plus every unary admin method through the outbound server; non-trivial = cases that must be refused")
 	res.Set("exhaustive", true)
 	res.Set("transports", "tcp, mux-server, mux-client (quick: the mux transports get the base families and the singleton/complement lists of DescribeCluster and StreamWorkflowReplicationMessages; thorough: every family on every transport)")
 	res.Sample(map[string]any{"family": fams[len(fams)-1].name, "method": "/temporal.server.api.adminservice.v1.AdminService/DescribeCluster"})
